@@ -40,14 +40,14 @@ CHECKS["C19"] = dict(
    note="Trusts oracles/jsonref.py (0 disagreements with node on 78 201 generated cases at development time). Integer-key ordering and accessor serialisation are recorded known findings of the object model.",
    ref="4/C19")
 CHECKS["C09"] = dict(
-   technique="exhaustive small-pattern enumeration + Hypothesis random pattern ASTs with match-biased subjects, differential against a CPS transcription of the ECMAScript 22.2.2 matcher",
+   technique="exhaustive small-pattern enumeration, capture-lifetime pattern families + Hypothesis random pattern ASTs with match-biased subjects, differential against a CPS transcription of the ECMAScript 22.2.2 matcher",
    text="All pattern ASTs of <= 3 nodes (4 nodes and three-term sequences sampled/sharded; 5 nodes in thorough) over an alphabet with every operator kind x all subjects up to length 4-5 x flag sets, and random deeper patterns with subjects derived from the pattern, are matched by the engine (Python API, script-level RegExp and literals for a sample) and by an independent specification-style matcher; match/no match, index, matched text and every capture (unset vs empty) must agree. 3.3e6 attempts in quick, 5e7 in thorough.",
    note="Trusts oracles/reref.py (0 disagreements with node 20 on 1.95e6 triples at development time). Cases where either side exhausts its step budget are out of scope. Unicode mode is outside the generated alphabet.",
    ref="4/C09")
 CHECKS["C11"] = dict(
    technique="Hypothesis-generated JSON-like values through set/get/eval round trips with typed deep equality, freshness (aliasing) probes, exposed-callable recording and seeded random set/eval/get interleavings against a dict model",
    text="Values over boundary ints/floats (NaN, -0, infinities, |int| > 2^53), strings incl. control and non-BMP text, awkward keys and nesting go through set->get, set->eval, the script's own view (null vs undefined, typeof at every node), literal->eval, arguments and return values of exposed Python callables, and 25-step interleavings on one context; comparison is typed (bool != int, int stays int, float stays float, key order), returned containers are mutated to prove nothing mutable is shared.",
-   note="Domain restricted to what the property states: JSON-like values with str keys; host callables return primitives or None.",
+   note="Domain restricted to what the property states: JSON-like values with str keys; host callables return primitives, None or (the documented way for structures) JSObject / JSArray instances.",
    ref="4/C11")
 CHECKS["C15"] = dict(
    technique="differential self-consistency across host hash seeds (one subprocess per PYTHONHASHSEED), evaluation orders, polluted processes and repetition; generated programs carry their expected value",
@@ -55,7 +55,7 @@ CHECKS["C15"] = dict(
    note="Programs stopped by the wall-clock time limit are excluded (clock dependent by definition). Math.random/Date.now are never generated and filtered from the corpus.",
    ref="4/C15")
 CHECKS["C03"] = dict(
-   technique="metamorphic name probing (implementation attribute names vs a control name through 27 access forms), a value-typing invariant observed by an exposed host function over every discovered built-in call and corpus program, and host-call accounting",
+   technique="metamorphic name probing (implementation attribute names vs a control name through 27 access forms), a value-typing invariant observed by an exposed host function and by a harness-side operand-stack monitor over every discovered built-in call, every operator on the boundary grid, argument-flow expressions, corpus and generated programs, and host-call accounting (incl. global names rebound to host functions)",
    text="(a) For 31 receiver kinds x every attribute name of every implementation class (collected reflectively), the Python dunder vocabulary and fresh names, the observation through read/typeof/in/hasOwnProperty/keys/for-in/call/new/instanceof/stringify/prototype use/delete/write-then-read and dot forms must equal the observation for a certainly-unknown name, unless ES defines the name for that receiver kind. (b) Every result of every discovered built-in member on adversarial arguments, and everything reachable from the globals of 383 corpus programs, is passed to inspect(): only JS primitives, JSObject-family objects, JSFunctions and microjs-defined or exposed callables may appear; eval/get results are type-checked likewise. (c) Exposed functions in 25 non-calling positions are never invoked and in calling positions exactly as written.",
    note="ES-defined names per receiver kind are frozen from node 20 at development time (golden/es_receiver_names.json); the engine's array-valued arguments object is treated as an array. An open-world negative claim: gadget chains outside the access-form grammar are not reached.",
    ref="4/C03")
@@ -65,7 +65,7 @@ CHECKS["C04"] = dict(
    note="Nesting deeper than 30 is out of scope (README). MemoryError on requests tagged huge is counted resource_excluded. Thorough adds every prefix of every small corpus program.",
    ref="4/C04")
 CHECKS["C10"] = dict(
-   technique="Hypothesis pattern/flag soup and single-mutation patterns through every construction entry point; 43 catastrophic-backtracking families with exact step accounting through the public poll callback; optional atheris campaign",
+   technique="Hypothesis pattern/flag soup and single-mutation patterns through every construction entry point; 43 catastrophic-backtracking families with exact step accounting through the public poll callback; counted-quantifier sweep with tracemalloc-measured construction memory; every script-level regex API on empty-matching/random patterns x u/g/y flags x astral subjects; optional atheris campaign",
    text="Construction: 84 800 pattern strings (metacharacter soup incl. NUL/U+2028/non-BMP, valid patterns with one mutation of every listed kind, flag strings) through microjs.regex.RegExp, new RegExp, RegExp(), literals and string-pattern match/search: only RegExpError at the Python API within 2 CPU-s and a linear program-size bound; at script level success or a SyntaxError the script itself catches, JSError at the boundary. Matching: 43 families x subject lengths up to 1e3 (1e4) at the Python API (steps <= (len+2)(S+1), stack clause), under a 20 ms virtual-clock time limit through 3 constructors x 8 APIs, and without a limit sized by the budget; result or JSError, never the private regex exceptions, bounded CPU/clock reads/RSS.",
    note="Boundedness is judged against the engine's own step and stack budgets, not wall time. Atheris (thorough) is skipped with a note when unavailable.",
    ref="4/C10")
